@@ -1,6 +1,9 @@
 (* Correspondence runner for C07 on the Relay model: agreement of model and implementation step by
-   step, and the property predicate chk_C07 evaluated on the implementation's observed trace. *)
+   step, and the property predicate (chk_C07 and the forwarding clause) evaluated on the implementation's observed trace. *)
 From Turn Require Export RelayProps.
 Definition case := rcase.
-Definition chk := chk_C07.
+(* chk_C07: what exists is exactly what has not timed out (tables reconstructed from the success responses);
+   chk_C05_live: "until then the entry always authorises relaying" - whenever a permission / channel binding is present
+   before the event (and the allocation is a UDP one and the datagram fits) the datagram IS forwarded, exactly once *)
+Definition chk (c : rcase) : bool := chk_C07 c && chk_C05_live (rc_cfg c) [] [] (rc_steps c).
 Definition bad_cases (base : N) (cs : list case) := bad_from (run_with chk) base cs.
